@@ -9,6 +9,10 @@
          "reports": [[k, report after k events]…]  (for k in want, k ≤ handled),
          "final": report after all handled events,
          "prefix": [[k, prefixB (report k) final]…]}
+        optional "xml_sessions":[{"s":S,"enc":"utf8"|"ascii"|"latin1"}] → "xml_sessions":[{"saves":[k…],"loads":[class…],"handled":n,"err":null|"save"|…}]
+        (`sessRunG (Store.xmlSaveOkEnc enc)`: the XML backend's save raises on a character the file encoding cannot take)
+        S may also be {"k":"chosen","cli":str|null,"env":str|null}: `Saving.chosenStrategy` (what `lcc run` uses)
+    {"op":"option","cli":str|null,"env":str|null} → {"expr": resolveExpr, "chosen": S | null (rejected)}
     {"op":"prefix","a":report,"b":report} → {"prefix": prefixB a b}
     {"op":"fs","mode":"atomic"|"inplace","prev":null|[…],"saves":[[chunk…]…],"cut":n}
       → {"file": visible after `cut` operations, "tmp": …, "nops": total number of operations}
@@ -19,6 +23,7 @@ import LccModel.Proto
 import LccModel.ProtoReport
 import LccModel.Model.Saving
 import LccModel.Model.Grammar
+import LccModel.Model.Store
 open Lean LccModel LccModel.Proto LccModel.ProtoReport LccModel.Report LccModel.Writer LccModel.Saving
 
 def decStrategy (j : Json) : Except String Strategy := do
@@ -29,7 +34,36 @@ def decStrategy (j : Json) : Except String Strategy := do
   | "atEachFailedTest" => pure .atEachFailedTest
   | "atEachLog" => pure .atEachLog
   | "everyN" => pure (.everyN (← getNat j "n"))
+  | "chosen" =>
+    -- what `lcc run` uses given `--save-report` (cli) and `$LCC_SAVE_REPORT` (env): `Saving.chosenStrategy`
+    match chosenStrategy (← getOptStr j "cli") (← getOptStr j "env") with
+    | some st => pure st
+    | none => throw "rejected"
   | k => throw s!"unknown strategy {k}"
+
+def encStrategy : Strategy → Json
+  | .atEndOfTests => Json.mkObj [("k", "atEndOfTests")]
+  | .atEachSuite => Json.mkObj [("k", "atEachSuite")]
+  | .atEachTest => Json.mkObj [("k", "atEachTest")]
+  | .atEachFailedTest => Json.mkObj [("k", "atEachFailedTest")]
+  | .atEachLog => Json.mkObj [("k", "atEachLog")]
+  | .everyN n => Json.mkObj [("k", "everyN"), ("n", Json.num n)]
+
+def decEncoding (s : String) : Except String JsonFile.Encoding :=
+  match s with
+  | "ascii" => pure .ascii
+  | "latin1" => pure .latin1
+  | "utf8" => pure .utf8
+  | e => throw s!"unknown encoding {e}"
+
+/-- outcome class of loading what an XML save of `r` leaves on disk -/
+def xmlLoadClass (r : Report) : String :=
+  match Store.oneShot .xml 0 r with
+  | .loaded _ => "loaded"
+  | .loadFailed (.noneText _) => "loaded"        -- the real load succeeds, with `None` in a text position
+  | .loadFailedText => "parse-error"
+  | .saveFailed _ => "save-error"
+  | _ => "load-error"
 
 /-- writer alone: every intermediate report (index = number of handled events) -/
 def writerTrace (w : WriterState) (es : List Event) (acc : Array Report) : Array Report × Option (WriterErr × Nat) :=
@@ -81,7 +115,25 @@ def handle (j : Json) : Except String Json := do
                     | some (.writer _) => Json.str "writer"
                     | some .strategy => Json.str "strategy")])
     let wanted := want.filter (· ≤ handled)
+    -- sessions of the XML backend, whose save can raise (`sessRunG`): [{"s": strategy, "enc": encoding}]
+    let xmlSpecs ← match fieldOpt j "xml_sessions" with
+      | .null => pure []
+      | xj => decList (fun x => do
+          let st ← decStrategy (← field x "s")
+          let enc ← decEncoding (← getStr x "enc")
+          pure (st, enc)) xj
+    let xmlOut := xmlSpecs.map (fun (st, enc) =>
+      let (s, err) := sessRunG (Store.xmlSaveOkEnc enc) st clock (Sess.init clock r0) es
+      Json.mkObj [("saves", Json.arr (s.saves.reverse.map (fun (p : Nat × Report) => Json.num p.1)).toArray),
+                  ("loads", Json.arr (s.saves.reverse.map (fun (p : Nat × Report) => Json.str (xmlLoadClass p.2))).toArray),
+                  ("handled", Json.num s.handled),
+                  ("err", match err with
+                    | none => Json.null
+                    | some .save => Json.str "save"
+                    | some (.base (.writer _)) => Json.str "writer"
+                    | some (.base .strategy) => Json.str "strategy")])
     pure (Json.mkObj [
+      ("xml_sessions", Json.arr xmlOut.toArray),
       ("handled", Json.num handled),
       ("err", match werr with
         | none => Json.null
@@ -93,6 +145,13 @@ def handle (j : Json) : Except String Json := do
       ("reports", Json.arr (wanted.map (fun (k : Nat) => Json.arr #[Json.num k, encReport (trace.getD k r0)])).toArray),
       ("final", encReport final),
       ("prefix", Json.arr (wanted.map (fun (k : Nat) => Json.arr #[Json.num k, Json.bool (prefixB (trace.getD k r0) final)])).toArray)])
+  | "option" =>
+    let cli ← getOptStr j "cli"
+    let env ← getOptStr j "env"
+    pure (Json.mkObj [("expr", Json.str (resolveExpr cli env)),
+                      ("chosen", match chosenStrategy cli env with
+                        | some st => encStrategy st
+                        | none => Json.null)])
   | "prefix" =>
     let a ← decReport (← field j "a")
     let b ← decReport (← field j "b")
